@@ -101,6 +101,7 @@ class Mon:
         self.seen.add(sig)
         w = dict(self.case)
         w["check"] = check
+        w["key"] = key
         w["op"] = info.get("op")
         self.viol.append({"key": key, "what": f"[{check}] {what}"[:1000], "witness": w})
 
@@ -539,6 +540,7 @@ def run_shard(spec):
     res = {"evaluations": 0, "nontrivial": [], "counters": {}, "samples": [], "violations": [], "skipped": {}}
     for kind, ka, kb, inst in spec["tasks"]:
         case = gen_case(kind, ka, kb, inst, spec["seed"], tier)
+        case["tier"] = tier
         mon = check_case(case, res["counters"], res["skipped"], tier)
         res["evaluations"] += 1
         if mon.nontrivial:
@@ -555,7 +557,10 @@ def run_shard(spec):
 def replay(w):
     if w.get("check") == "wrapper":
         return []
-    case = {k: w[k] for k in w if k not in ("check", "op")}
-    mon = check_case(case, {}, {}, "quick")
+    case = {k: w[k] for k in w if k not in ("check", "op", "key")}
+    mon = check_case(case, {}, {}, w.get("tier", "quick"))
     out = [v for v in mon.viol if v["witness"].get("check") == w.get("check") and v["witness"].get("op") == w.get("op")]
-    return out or mon.viol
+    out = out or mon.viol
+    for v in out:
+        v["what"] = f"key={v['key']} " + v["what"]
+    return out
